@@ -102,6 +102,9 @@ def alphabet(framing, tier):
     return out
 
 
+EMPTY = ('empty-datagram', b'', None)
+
+
 def expected_stores(writes):
     """all final states reachable by applying an in-order subsequence of the intact writes"""
     outs = []
@@ -194,6 +197,8 @@ def shard(args):
     small = [a for a in alpha if a[0].startswith(('valid', 'fc16-short', 'fc15-qty9', 'zero', 'fc41', 'fc08-one', 'fc14-bc', 'byte-7B', 'byte-0D',
                                                   'truncated-3', 'truncated-9', 'mbap-len-0', 'mbap-len-65535', 'bad-checksum', 'fc2b-short'))]
     kind = servers.FRONTS[front][0]
+    if kind == 'dgram':
+        alpha = alpha + [EMPTY]          # a zero-length datagram is a legal thing for a peer to send
     seqs = [(a,) for a in alpha] + [(a, b) for a in alpha for b in alpha]
     if tier == 'thorough':
         seqs += [(a, b, c) for a in small for b in small for c in small]
@@ -244,7 +249,7 @@ def run(tier, seed):
 
 def replay(w):
     acc = Acc()
-    alpha = dict((a[0], a) for a in alphabet(w['framing'], 'thorough'))
+    alpha = dict((a[0], a) for a in alphabet(w['framing'], 'thorough') + [EMPTY])
     writes = [alpha[n][2] for n in w['tokens'] if alpha[n][2] is not None]
     p = run_one(acc, w['front'], w['framing'], w['tokens'], [bytes.fromhex(c) for c in w['chunks']], writes)
     return bool(p), '\n'.join('%s: %s' % (v['sig'], v['msg']) for v in acc.violations) or 'no violation'
